@@ -34,6 +34,7 @@ type Prog struct {
 	// named types implementing interfaces (closed world)
 	allNamed []*types.Named
 	globalsAssigned map[*types.Var]bool
+	globalInit map[*types.Var]ast.Expr // initialiser expressions of package-level variables
 	effCache map[string]*Effects
 }
 
@@ -52,7 +53,7 @@ func Load(repo string, specDir string) (*Prog, error) {
 	}
 	p := &Prog{Pkgs: map[string]*packages.Package{}, Funcs: map[string]*FuncInfo{}, ByObj: map[*types.Func]*FuncInfo{},
 		Specs: NewSpecSet(), ModPath: ModulePath, RepoDir: repo, tagOf: map[string]int{}, tagType: []types.Type{nil},
-		globalsAssigned: map[*types.Var]bool{}, effCache: map[string]*Effects{}}
+		globalsAssigned: map[*types.Var]bool{}, effCache: map[string]*Effects{}, globalInit: map[*types.Var]ast.Expr{}}
 	var errs []string
 	for _, pk := range pkgs {
 		if !strings.HasPrefix(pk.PkgPath, ModulePath) {
@@ -80,6 +81,19 @@ func Load(repo string, specDir string) (*Prog, error) {
 				continue
 			}
 			for _, d := range f.Decls {
+				if gd, ok := d.(*ast.GenDecl); ok && gd.Tok == token.VAR {
+					for _, sp := range gd.Specs {
+						vs, ok := sp.(*ast.ValueSpec)
+						if !ok || len(vs.Values) != len(vs.Names) {
+							continue
+						}
+						for i, nm := range vs.Names {
+							if v, ok := pk.TypesInfo.Defs[nm].(*types.Var); ok {
+								p.globalInit[v] = vs.Values[i]
+							}
+						}
+					}
+				}
 				fd, ok := d.(*ast.FuncDecl)
 				if !ok {
 					continue
